@@ -230,7 +230,59 @@ def h_renorm(run, cfg):
         run.check_near(P.iloc[di], 100.0 * (1.0 + acc), EPS_P * 100, 'renormalized-price-formula', 'date %d' % di)
 
 
-HARNESSES = {'history': h_history, 'rebalance': h_rebalance, 'renorm': h_renorm, 'rebalance_direct': h_rebalance_direct}
+def h_nested_fi(run, cfg):
+    """fixed-income root over two fixed-income sub-strategies, one of them long one security and short another: rebalancing the root to fractions of
+    a set notional scales each sub-strategy's book pro rata (longs longer, shorts shorter); next date's coupons and index follow the scaled book"""
+    B = bt()
+    C = B.core
+    dts = dates(3)
+    P = {'c1': [1.0, 1.0625, 1.0], 'c2': [1.0, 0.96875, 1.03125], 'c3': [1.0, 1.03125, 1.015625]}
+    CP = {'c1': [0.125, 0.0625, 0.0], 'c2': [0.0625, 0.1875, 0.0], 'c3': [0.25, 0.0, 0.0]}
+    data = frame(run, dts, ['c1', 'c2', 'c3'], lambda i, c: P[c][i])
+    cpn = frame(run, dts, ['c1', 'c2', 'c3'], lambda i, c: CP[c][i])
+    s1 = C.FixedIncomeStrategy('s1', children=[C.CouponPayingSecurity('c1'), C.CouponPayingSecurity('c2')])
+    s2 = C.FixedIncomeStrategy('s2', children=[C.CouponPayingSecurity('c3')])
+    s = C.FixedIncomeStrategy('s', children=[s1, s2])
+    s.use_integer_positions(False)
+    s.setup(data, coupons=cpn)
+    s1, s2 = s['s1'], s['s2']
+    s.update(dts[0])
+    sg = cfg['signs']
+    q = {}
+    for n, par, sign in (('c1', s1, sg[0]), ('c2', s1, sg[1]), ('c3', s2, sg[2])):
+        q[n] = (run.real('q_' + n, 10, 500) if n == cfg.get('sym', 'c1') else {'c1': 100.0, 'c2': 300.0, 'c3': 100.0}[n]) * sign
+        par.transact(q[n], n)
+    s.update(dts[0])
+    n1 = q['c1'] * sg[0] + q['c2'] * sg[1]
+    n2 = q['c3'] * sg[2]
+    run.check_near(s1.notional_value, n1, EPS_MONEY, 'strategy-notional=sum-abs-children', 's1')
+    run.check_near(s.notional_value, n1 + n2, EPS_MONEY, 'strategy-notional=sum-abs-children', 'root')
+    N = cfg['notional']
+    w1, w2 = cfg['w']
+    s.temp = {'notional_value': N, 'weights': {'s1': w1, 's2': w2}}
+    B.algos.Rebalance()(s)
+    want = {'c1': (w1 * N, n1), 'c2': (w1 * N, n1), 'c3': (w2 * N, n2)}
+    sec = {'c1': s1['c1'], 'c2': s1['c2'], 'c3': s2['c3']}
+    for n in ('c1', 'c2', 'c3'):
+        tgt, old = want[n]
+        run.check_near(sec[n].position * old, q[n] * abs(tgt), 1e-4, 'substrategy-book-scaled-pro-rata', '%s (signs %s)' % (n, sg))
+    run.check_near(s1.notional_value, abs(w1) * N, EPS_MONEY, 'substrategy-notional=target', 's1')
+    run.check_near(s2.notional_value, abs(w2) * N, EPS_MONEY, 'substrategy-notional=target', 's2')
+    run.check_near(s.notional_value, (abs(w1) + abs(w2)) * N, EPS_MONEY, 'strategy-notional=sum-abs-children', 'root after rebalance')
+    # weights are fractions of the parent's actual notional (targets are fractions of the SET notional; they coincide when |w| sums to one)
+    tot = abs(w1) + abs(w2)
+    run.check_near(s1.weight * tot, w1, 1e-9, 'weight=notional-fraction', 's1')
+    run.check_near(s2.weight * tot, w2, 1e-9, 'weight=notional-fraction', 's2')
+    run.check_near(s.value, 0.0, EPS_MONEY, 'rebalance-at-par-free', 'root value')
+    pos = {n: sec[n].position for n in sec}
+    s.update(dts[1])
+    carry = pos['c1'] * CP['c1'][0] + pos['c2'] * CP['c2'][0] + pos['c3'] * CP['c3'][0]
+    mtm = sum(pos[n] * (P[n][1] - P[n][0]) for n in pos)
+    run.check_near(s.value, carry + mtm, EPS_MONEY, 'value=carry+mark-to-market', 'date 1')
+    run.check_near((s.price - 100.0) * s.notional_value, 100.0 * (carry + mtm), 1e-4, 'index-additive-on-notional', 'date 1')
+
+
+HARNESSES = {'nested_fi': h_nested_fi, 'history': h_history, 'rebalance': h_rebalance, 'renorm': h_renorm, 'rebalance_direct': h_rebalance_direct}
 WITNESS_CAP = {'quick': 120, 'thorough': 300}
 
 
@@ -253,6 +305,10 @@ def plan(tier):
     for child in ('a', 'b'):
         for wt in (0.5, -0.25):
             tasks.append(dict(harness='rebalance_direct', cfg=dict(costs='both', spread=0, fee=0, nd=3, child=child, weight=wt, notional=800.0), opts=opts))
+    for signs in ([1, -1, 1], [1, 1, 1], [-1, -1, 1], [-1, 1, -1]):
+        for wv in ([0.625, 0.375], [0.25, 0.5]):
+            for sym in ('c1', 'c2', 'c3'):
+                tasks.append(dict(harness='nested_fi', cfg=dict(signs=signs, w=wv, notional=1000.0, sym=sym, deg_limit=4), opts=opts))
     for v in (1000.0, 62.5):
         tasks.append(dict(harness='renorm', cfg=dict(costs='both', spread=1, fee=0, nd=4, norm=v), opts=opts))
     return tasks
